@@ -87,7 +87,7 @@ func (t *WeightedMerkleTrie) collectNodes(node Node, persistTrie *PersistTrie) e
 	if !node.ToCollect() {
 		if r, ok := node.(*routingNode); ok {
 			node = &hashNode{
-				hash:   r.hash,
+				hash:   r.CalcHash(), // the cached hash is stale (or unset) while the branch is dirty
 				weight: r.weight,
 			}
 		}
